@@ -98,6 +98,8 @@ package trafficlogger
 //@   ensures !online ==> onlineOf(s, id) == max(old(onlineOf(s, id)) - 1, 0)
 //@   ensures forallStr(k, k != id ==> onlineOf(s, k) == old(onlineOf(s, k)))
 //@   ensures forallStr(k, txOf(s, k) == old(txOf(s, k)) && rxOf(s, k) == old(rxOf(s, k)))
+// a pending kick is consumed only by the traffic report it refuses: connects and disconnects leave the kick list alone
+//@   ensures forallStr(k, indom(s.KickMap, k) == old(indom(s.KickMap, k)))
 //@   modifies any
 
 // getTraffic: the encoded snapshot is the live map; with clear it is replaced by a
@@ -117,5 +119,5 @@ package trafficlogger
 //@   nonil
 //@   requires !wlock && !rlock
 //@   ensures !wlock && !rlock
-//@   ensures forallStr(k, onlineOf(s, k) == old(onlineOf(s, k)) && txOf(s, k) == old(txOf(s, k)))
+//@   ensures forallStr(k, onlineOf(s, k) == old(onlineOf(s, k)) && txOf(s, k) == old(txOf(s, k)) && rxOf(s, k) == old(rxOf(s, k)) && indom(s.KickMap, k) == old(indom(s.KickMap, k)))
 //@   modifies any
